@@ -13,11 +13,15 @@
   methods work in place and mostly return the receiver itself. Evaluation order in the C++:
   receiver, args[0], (null tests), args[1].
 
-  Hazards (undefined behaviour of the C++ reproduced as outcomes):
-    * `Integer(*a.numeric())` / `Numeric(*a.integer())` on a typed-null argument in the "type mixing"
-      branch of put / insert / concat / set@ : `hazard nullDeref`;
-      (a decimal outside the int64 range raises OUT_OF_RANGE: `Value::toInteger`; an item rank above
-      2^32 − 1 is a compile error — both repaired upstream while this model was written).
+  Hazards (undefined behaviour of the C++ reproduced as outcomes): none is left in the methods on
+  tables and tuples (`mixElem_no_hazard`, `mixItem_no_hazard` in Proofs/Lemmas/Containers.lean). Repaired
+  upstream while this model was written:
+    * the "type mixing" branch of put / insert / concat / set@ tests `a.isNull()` before
+      `Integer(*a.numeric())` / `Numeric(*a.integer())`: a NULL decimal given for an integer table / item
+      stores a null integer (`Value(Value::type_integer)`), a NULL integer given for a decimal one stores
+      a null decimal (9e8652f; was a null-pointer dereference, `hazard nullDeref`);
+    * a decimal outside the int64 range raises OUT_OF_RANGE (`Value::toInteger`); an item rank above
+      2^32 − 1 is a compile error.
   Defects reproduced as *values* (see Proofs/C09.lean for the witnesses):
     * the "type mixing" branch ignores the table's level: an integer/decimal table of 2+ dimensions
       accepts a scalar decimal/integer/untyped null and stores a level-0 element;
@@ -76,11 +80,15 @@ inductive Slot
   deriving Repr
 
 /-- The `else /* type mixing */ switch (rv_type.major())` of member_put/insert/concat.cpp. `a` has
-level 0 here and a major different from the table's. The level of the table is NOT consulted. -/
+level 0 here and a major different from the table's. The level of the table is NOT consulted.
+A NULL decimal given for an integer table stores `Value(Value::type_integer)`, a NULL integer given for
+a decimal table `Value(Value::type_numeric)` (`a.isNull() ? … : …`, 9e8652f) — a level-0 null whatever
+the level of the table is (C09.mix.level). -/
 def mixElem (t : Ty) (a : Val) (nullTy : Ty) : Res Slot :=
   match t.major with
   | .int =>
     if a.type.major == .num then
+      if a.isNull then .ok (.one (.null Ty.int)) else
       match a.asNum with
       | .ok d =>
         match Num.intOfDecimal d with
@@ -95,6 +103,7 @@ def mixElem (t : Ty) (a : Val) (nullTy : Ty) : Res Slot :=
     else .ok .mismatch
   | .num =>
     if a.type.major == .int then
+      if a.isNull then .ok (.one (.null Ty.num)) else
       match a.asInt with
       | .ok i => .ok (.one (.num (Num.bits i.toFloat)))
       | .err c x => .err c x
@@ -482,11 +491,13 @@ def itemAtV (recv : Val) (index : Nat) : Res Val :=
     else idxErr
   | _ => .err Gen.EXC_RT_NOT_ROWTYPE
 
-/-- type mixing of `set@`: like `mixElem` but without the ROWTYPE case. -/
+/-- type mixing of `set@`: like `mixElem` but without the ROWTYPE case (a NULL decimal given for an
+integer item stores a null integer, a NULL integer given for a decimal item a null decimal). -/
 def mixItem (dt : Ty) (a : Val) (oldTy : Ty) : Res (Option Val) :=
   match dt.major with
   | .int =>
     if a.type.major == .num then
+      if a.isNull then .ok (some (.null Ty.int)) else
       match a.asNum with
       | .ok d =>
         match Num.intOfDecimal d with
@@ -501,6 +512,7 @@ def mixItem (dt : Ty) (a : Val) (oldTy : Ty) : Res (Option Val) :=
     else .ok none
   | .num =>
     if a.type.major == .int then
+      if a.isNull then .ok (some (.null Ty.num)) else
       match a.asInt with
       | .ok i => .ok (some (.num (Num.bits i.toFloat)))
       | .err c x => .err c x
